@@ -1,0 +1,26 @@
+//go:build verif
+
+package ion
+
+import "io"
+
+// Re-exports of text-writer internals for the /verif correspondence harness.
+// Compiled only with -tags verif; adds no behaviour.
+
+func VerifSymbolNeedsQuoting(sym string) bool { return symbolNeedsQuoting(sym) }
+func VerifIsIdentifierStart(c int) bool       { return isIdentifierStart(c) }
+func VerifIsIdentifierPart(c int) bool        { return isIdentifierPart(c) }
+func VerifIsDigit(c int) bool                 { return isDigit(c) }
+func VerifIsHexDigit(c int) bool              { return isHexDigit(c) }
+func VerifIsOperatorChar(c int) bool          { return isOperatorChar(c) }
+func VerifIsStopChar(c int) bool              { return isStopChar(c) }
+func VerifIsWhitespace(c int) bool            { return isWhitespace(c) }
+func VerifFormatFloat(val float64) string     { return formatFloat(val) }
+func VerifTextNull(t int) string              { return textNulls[t] }
+
+func VerifWriteSymbol(tok SymbolToken, out io.Writer) error { return writeSymbol(tok, out) }
+func VerifWriteSymbolFromString(sym string, out io.Writer) error {
+	return writeSymbolFromString(sym, out)
+}
+func VerifWriteEscapedSymbol(sym string, out io.Writer) error { return writeEscapedSymbol(sym, out) }
+func VerifWriteEscapedString(str string, out io.Writer) error { return writeEscapedString(str, out) }
